@@ -1068,7 +1068,8 @@ fn gen_tiny_text(r: &mut Rng, n: usize, diff: bool, out: &mut Out) -> Vec<u8> {
 		if r.chance(1, 3) {
 			let mut f = vec![b"c".to_vec()];
 			if diff { f.push(if r.chance(1, 2) { Vec::new() } else { b"old".to_vec() }); }
-			f.push(r.pick(&["doc", "two\\nlines", "x\\y", "tab\\t", "", "ü"]).as_bytes().to_vec());
+			// incl. comments that END in a backslash (single, and after an escaped one) and a backslash in front of a multi-byte character
+			f.push(r.pick(&["doc", "two\\nlines", "x\\y", "tab\\t", "", "ü", "end\\", "\\", "esc\\\\", "odd\\\\\\", "b\\ü", "\\n\\"]).as_bytes().to_vec());
 			lines.push((ind, f));
 		}
 	};
@@ -1285,9 +1286,38 @@ fn gen_pass_desync(out: &mut Out) {
 	}
 }
 
+/// Methods that make `write_code` abandon an attempt (a forward `goto_w` / `jsr_w` or conditional jump across more than 32 KiB is
+/// first reserved narrow) AND carry a StackMapTable with several frames: the frames collected by the abandoned attempt must be
+/// discarded with it (`frames.clear()`), otherwise `offset - previous - 1` underflows in the StackMapTable writer.
+fn gen_writer_retry_with_frames(out: &mut Out) {
+	for (gap, wide_opcode) in [(32768usize, 0xc8u8), (40000, 0xc8), (33000, 0xc9), (32766, 0xc8)] {
+		for nframes in [1usize, 2, 3] {
+			// goto_w/jsr_w L; nop * gap; L: nop; nop; nop; return
+			let mut code = vec![wide_opcode];
+			code.extend(((5 + gap) as i32).to_be_bytes());
+			code.extend(std::iter::repeat(0u8).take(gap));
+			let target = code.len();
+			code.extend([0, 0, 0, 0xb1]);
+			let mut body = vec![0, 4, 0, 4];
+			u32be(&mut body, code.len());
+			body.extend_from_slice(&code);
+			body.extend([0, 0]);                 // no exception table
+			body.extend([0, 1]);                 // one attribute: StackMapTable (pool index 24 of the wrapper pool)
+			let mut smt = Vec::new();
+			u16be(&mut smt, nframes);
+			smt.push(251); u16be(&mut smt, target); // same_frame_extended at the jump target
+			for _ in 1..nframes { smt.push(0); }    // same_frame, offset_delta 0: the next instruction each
+			u16be(&mut body, 24); u32be(&mut body, smt.len()); body.extend_from_slice(&smt);
+			out.op("oracle-write-no-panic", &[Sexp::bytes(&wrapper_class(&[], Some((7, &body)), &[]))]);
+			out.stats.hit("write-oracle:retry-with-frames");
+		}
+	}
+}
+
 fn gen(r: &mut Rng, tier: Tier, out: &mut Out) {
 	fixed_and_witness_lines(out);
 	gen_pass_desync(out);
+	gen_writer_retry_with_frames(out);
 	gen_wrapped(&mut r.fork(), tier, out);
 	gen_text(&mut r.fork(), tier, out);
 	gen_class_stream(&mut r.fork(), tier, out);
